@@ -25,6 +25,12 @@ TABLE = {
     "c05_multiplier_reads_both_wires.diff": ("contracts.c05", "_create_latch_multiplier", None),
     "c05_rs_hold_row_or.diff": ("contracts.c05", "_latch_placement", None),
     "c01_const_const_row_drops_left.diff": ("contracts.c07", "_configure_decider", "operation = <"),
+    "c07_emit_entity_not_mapped.diff": ("contracts.c07", "emit_from_plan", None),
+    "c07_emit_refused_placement_silent.diff": ("contracts.c07", "emit_from_plan", None),
+    "c07_emit_appends_copy.diff": ("contracts.c07", "emit_from_plan", None),
+    "c09_create_entity_shares_template.diff": ("contracts.c07", "create_entity", "template"),
+    "c07_create_entity_writes_skipped.diff": ("contracts.c07", "create_entity", "template"),
+    "c07_create_entity_constant_unconfigured.diff": ("contracts.c07", "create_entity", "constant-combinator"),
     "c07_arith_wires_swapped.diff": ("contracts.c07", "_configure_arithmetic", None),
     "c07_row_not_mirrored.diff": ("contracts.c07", "_configure_decider_multi_condition", None),
     "c07_placer_arith_operands_swapped.diff": ("contracts.c07b", "_place_arithmetic", None),
